@@ -483,6 +483,36 @@ fn run(ctx: &mut Ctx) {
             t += 8;
         }
     }
+    // ---------------- deep structures: work (and stack use) proportional to the number of elements
+    ctx.bound("deep_structures", "regions of 20000 header-only custom tags, of 5000 module tags, and an ELF-sections tag with 20000 unused entries followed by two used ones (engines run with a 256 KiB stack: recursion per element overflows it); same program");
+    let deep = Arena::new(400);
+    let mut deep_regions: Vec<(&'static str, Vec<u8>)> = vec![];
+    {
+        let mut tags: Vec<Vec<u8>> = (0..20000).map(|_| bi::tag(0x1337, &[])).collect();
+        tags.push(bi::sample(bi::MODULE, 1, 3));
+        tags.push(bi::end_tag());
+        deep_regions.push(("20000 custom tags", bi::region(&tags, &bi::zero_pad)));
+        let mut tags: Vec<Vec<u8>> = (0..5000u32).map(|i| bi::enc_module(i, i + 1, b"m\0")).collect();
+        tags.push(bi::end_tag());
+        deep_regions.push(("5000 modules", bi::region(&tags, &bi::zero_pad)));
+        let n = 20002u32;
+        let mut sec = vec![0u8; n as usize * 64];
+        for i in [n - 2, n - 1] {
+            let e = bi::enc_shdr64(0, if i == n - 1 { 3 } else { 1 }, 2, 0x1000, 0, 0x10, 0, 0, 8, 0);
+            sec[i as usize * 64..(i as usize + 1) * 64].copy_from_slice(&e);
+        }
+        deep_regions.push(("ELF tag with 20000 unused entries", bi::region(&[bi::enc_elf(n, 64, n, &sec), bi::end_tag()], &bi::zero_pad)));
+    }
+    for (what, region) in &deep_regions {
+        ctx.leaf(
+            || J::obj().set("part", "deep_structures").set("what", *what).set("region_len", region.len()),
+            |ctx| {
+                ctx.state(hash::hash_bytes(region));
+                ctx.nontrivial();
+                region_level(ctx, &deep, region, false, true);
+            },
+        );
+    }
 }
 
 fn main() {
